@@ -68,6 +68,17 @@ func init() {
 					c09Configs = append(c09Configs, c09Cfg{seps: []rune(x.now), quotes: []rune{'"'}, eol: e, always: always, useSep: us, preSeps: []rune(x.pre), preQuotes: []rune{'"'}})
 				}
 			}
+			// neighbouring code points above U+00FF, listed in descending and in ascending order
+			for _, pair := range []string{"\uff1b\uff1a", "\uff1a\uff1b", "\u0101\u0100"} {
+				for us := 0; us < 2; us++ {
+					c09Configs = append(c09Configs, c09Cfg{seps: []rune(pair), quotes: []rune{'"'}, eol: e, always: always, useSep: us})
+				}
+			}
+			for _, pair := range []string{"\u300d\u300c", "\u300c\u300d"} {
+				for uq := 0; uq < 2; uq++ {
+					c09Configs = append(c09Configs, c09Cfg{seps: []rune{','}, quotes: []rune(pair), eol: e, always: always, useQuote: uq})
+				}
+			}
 			for _, x := range []rc{{"\"'”«‹", "»'”«‹"}, {"»'”«‹", "\"'”«‹"}, {"\"'”«‹", "\"'”«›"}} {
 				for uq := 0; uq < len([]rune(x.now)); uq += len([]rune(x.now)) - 1 {
 					c09Configs = append(c09Configs, c09Cfg{seps: []rune{','}, quotes: []rune(x.now), eol: e, always: always, useQuote: uq, preSeps: []rune{','}, preQuotes: []rune(x.pre)})
